@@ -840,8 +840,16 @@ def judge_capacity(ctx, case):
         import btc_hd_wallet.bip32 as _b32
         # (fast mode for the long histories: the N derivations in between are made with a constant PRF and memoised ecdsa
         #  calls - only their NUMBER matters here; the held children were derived, and are re-read, with the real ones)
+        import time as _time
+        t_start = _time.time()
+        budget = case.get("budget_s", 100 if ctx.tier == "quick" else 1200)
         with (inject.FastEC([_b32]) if case.get("fast") else contextlib.nullcontext()):
             while done < N and not bad:
+                if _time.time() - t_start > budget:
+                    # every workload is capped by operations AND time: an implementation whose derivations get slower with
+                    # the number of children (a linear look-up, say) is judged on the history it managed within the budget
+                    ctx.extra["capacity_runs_cut_short_by_time_budget"] = ctx.extra.get("capacity_runs_cut_short_by_time_budget", 0) + 1
+                    break
                 chunk = min(4096, N - done)
                 if case.get("how", "generate_children") == "generate_children" or (done // 4096) % 2 == 0:
                     parent.generate_children(interval=(100 + done, 100 + done + chunk))
@@ -863,7 +871,8 @@ def judge_capacity(ctx, case):
             bad.append(("fresh_vs_held", "equal", "differ"))
     except Exception as ex:  # noqa
         bad.append(("raised", None, ex))
-    ctx.extra["capacity_derivations_on_one_parent"] = max(ctx.extra.get("capacity_derivations_on_one_parent", 0), N)
+    ctx.extra["capacity_derivations_on_one_parent"] = max(ctx.extra.get("capacity_derivations_on_one_parent", 0), done)
+    N = done
     return ctx.judge("capacity", not bad, case, "held children unchanged after N more derivations on their parent", bad[:3],
                      cls="capacity|%s|%s|n%d|%s" % (kind, "test" if tn else "main", N, "fast" if case.get("fast") else "real"), mech="C13.capacity." + (bad[0][0].split(".")[0].split("_after")[0] if bad else ""))
 
